@@ -259,6 +259,9 @@ func (rpcapi *ClusterRPCAPI) PinsRaw(ctx context.Context, in struct{}, out *[]*a
   '	if err != nil {\n		return []*api.Metric{}\n	}\n\n	return metrics.PeersetFilter', '	if err != nil {\n		return latest\n	}\n\n	return metrics.PeersetFilter'),
  ('C09-hand-accrual-before-expiry', 'monitor/metrics/checker.go',
   '''	if !latest.Expired() {
+		// Seen healthy: an alert sent for an earlier failure no
+		// longer counts, a later failure is a new one.
+		mc.resetAlerts(pid, metric)
 		return 0.0, nil, 0.0, false
 	}
 ''', ''),
